@@ -17,6 +17,10 @@ impl HasKey<Public> for V3 {
     type Key = PublicKey;
 
     fn decode(bytes: &[u8]) -> Result<PublicKey, PasetoError> {
+        // k3.public is the 49-byte compressed SEC1 point: no uncompressed, hybrid or compact forms
+        if bytes.len() != 49 || !matches!(bytes[0], 0x02 | 0x03) {
+            return Err(PasetoError::InvalidKey);
+        }
         p384::ecdsa::VerifyingKey::from_sec1_bytes(bytes)
             .map(PublicKey)
             .map_err(|_| PasetoError::InvalidKey)
